@@ -156,9 +156,9 @@ def run_cli(csv_text, codec, config, blocked, scratch):
     with contextlib.redirect_stdout(sink):
         extra = ([] if blocked else ['--no1014blocking']) + (['--config-file', cfgfile] if cfgfile else [])
         dbg = ['--debug'] if zlib.crc32(csv_text.encode('utf8')) % 2 else []      # the tools' own diagnostic switch, half of the runs
-        a1 = [src, '-o', ipm, '--in-encoding', 'utf8', '--out-encoding', codec] + extra + dbg
+        a1 = [src, '-o', ipm, '--in-encoding', 'utf8', '--out-encoding', codecs_.spell(codec, len(csv_text))] + extra + dbg
         mci_csv_to_ipm.cli_run(**vars(mci_csv_to_ipm.cli_parser().parse_args(a1)))      # what cli_entry does with sys.argv
-        a2 = [ipm, '-o', dst, '--in-encoding', codec, '--out-encoding', 'utf8'] + extra + dbg
+        a2 = [ipm, '-o', dst, '--in-encoding', codecs_.spell(codec, len(csv_text) + 1), '--out-encoding', 'utf8'] + extra + dbg
         rc = mci_ipm_to_csv.cli_run(**vars(mci_ipm_to_csv.cli_parser().parse_args(a2)))
     if rc == -1:
         raise RuntimeError('mci_ipm_to_csv reported a data error: ' + sink.getvalue()[-400:])
